@@ -22,6 +22,8 @@ RULE = (
     "(scheduled S_i, reschedule requeue issued at F_i with parameters P'): exactly one message with the id afterwards; "
     "P'.already_tried == 0; P'.timestamp within the requeue call; S_{i+1} = P'.next_execution_time with F_i < S_{i+1} <= F_i + p "
     "and S_{i+1} >= S_i + p; first delivery not before deferred_until. cron= is not exercisable (croniter is not installed). "
+    "Twins mode (15%): 2-4 recurring jobs in one queue on the same slot grid (same deferred_until, periods p or 2p, runs "
+    "finishing within the same microsecond-aligned slot): every id has exactly one message at the end and ran in every slot. "
     "non-trivial = at least 3 iterations completed; distinct = interleaving digest."
 )
 SHRINK_LISTS = ("profile",)
@@ -29,6 +31,14 @@ ASSUMPTIONS = ["cron schedules are not exercised: croniter is absent in this san
 
 
 def gen(rng, broker, tier):
+    if rng.random() < 0.15:
+        # several recurring jobs of one queue on the same slot grid (same deferred_until, periods p or 2p)
+        p = rng.choice([1, 1, 2]) if broker != "rabbit" else rng.choice([1, 2, 5])
+        return {"mode": "twins", "period_s": p, "n": rng.randint(2, 4), "until_us": rng.choice([200_000, 1_000_000, 1_500_000]),
+                "double": rng.random() < 0.3, "dur_us": rng.choice([0, 0, 1000, 20_000]), "iters": rng.randint(3, 5),
+                "tasks_limit": rng.choice([1, 2, 1000]), "profile": [],
+                "knobs": {"step_cost": rng.choice([0, 0, 1, "rand"]),
+                          "net": {"lat_lo": 50, "lat_hi": rng.choice([300, 3000]), "frag_p": 0}}}
     # virtual time is cheap only where the broker does not poll: in-memory polls every 1 ms, Redis every 0.1 s
     if broker == "mem":
         p = rng.choice([1, 1, 2, 3])
@@ -204,7 +214,75 @@ async def _main(sim, sc, out):
         probe(out, "iterations-completed", completed)
 
 
+async def _twins(sim, sc, out):
+    """2-4 recurring jobs sharing one queue and one slot grid: every one of them keeps exactly one successor"""
+    r = env.repid
+    b = sc["broker"]
+    world = await World(sim, b, nodes=("w", "p"), buckets="none", knobs=sc.get("knobs")).setup()
+    connw, connp = world.conn("w"), world.conn("p")
+    rec = world.rec
+    V = out["violations"]
+    runs: dict = {}
+
+    async def body(jid: str):
+        runs[jid] = runs.get(jid, 0) + 1
+        rec.note("actor_start", jid)
+        if sc["dur_us"]:
+            await asyncio.sleep(sc["dur_us"] / 1e6)
+        return jid
+
+    body.__annotations__ = {"jid": str}
+    router = r.Router()
+    router.actor(body, name="rec", queue="q0")
+    w = r.Worker(routers=[router], tasks_limit=sc["tasks_limit"], graceful_shutdown_time=1.0, _connection=connw)
+    await sim.loop.spawn("p", r.Worker(routers=[router], _connection=connp).declare_all_queues())
+    until = sim.clock.now() + timedelta(microseconds=sc["until_us"])
+    ids = [f"r{i}" for i in range(sc["n"])]
+    periods = {}
+    for i, jid in enumerate(ids):
+        periods[jid] = sc["period_s"] * (2 if sc["double"] and i % 2 else 1)
+        job = r.Job("rec", queue="q0", id_=jid, deferred_by=timedelta(seconds=periods[jid]), deferred_until=until,
+                    timeout=timedelta(seconds=600), args={"jid": jid}, store_result=False, _connection=connp)
+        await sim.loop.spawn("p", job.enqueue())
+    t0 = sim.clock.us
+    wt = sim.loop.spawn("w", w.run())
+    await asyncio.sleep((sc["until_us"] + sc["iters"] * sc["period_s"] * 1e6 + 700_000) / 1e6)
+    elapsed = sim.clock.us - t0
+    sim.loop.deliver_signal("w", signal.SIGINT)
+    try:
+        await asyncio.wait_for(asyncio.shield(wt), timeout=60)
+    except asyncio.TimeoutError:
+        V.append(violation("no-return", f"C06/{b}/worker-did-not-return"))
+        return
+    await asyncio.sleep(0.5)
+    insp = world.inspect()
+    for jid in ids:
+        ps = insp.get(jid, [])
+        if len(ps) != 1:
+            V.append(violation("successor-count", f"C06/{b}/twins/{'no' if not ps else 'several'}-successor-after-{min(runs.get(jid, 0), 3)}-runs",
+                               id=jid, places=place_summary(insp, jid), runs=dict(runs), n=sc["n"]))
+            break
+        # slots S_k = until + k*p that lie at least 3.5 s (broker polling allowances) before the stop were all run
+        due = int(max(0, (elapsed - sc["until_us"] - 3_500_000) // (periods[jid] * 1e6)))
+        if b == "rabbit" and sc["double"]:
+            continue  # a period-p message behind a period-2p one in <queue>:delayed is late by design (C05's known finding)
+        if runs.get(jid, 0) < due:
+            V.append(violation("runs-missing", f"C06/{b}/twins/fewer-runs-than-elapsed-slots", id=jid, runs=runs.get(jid, 0), due=due))
+            break
+    out["nontrivial"] = all(runs.get(j, 0) >= 2 for j in ids)
+    out["states"].append(f"tw{sc['n']}-{min(runs.values(), default=0)}")
+    if out["nontrivial"]:
+        probe(out, "recurring-jobs-sharing-a-slot")
+
+
 def run(sc):
+    if sc.get("mode") == "twins":
+        out = execute(_twins, sc, step_cap=8_000_000, vt_cap_s=400_000, wall_s=200)
+        if out["abort"]:
+            out["violations"].append(violation(
+                "abort", f"C06/{sc['broker']}/abort-{out['abort']['kind']}", detail=out["abort"]["detail"]))
+        out["scenario"] = sc
+        return out
     out = execute(_main, sc, step_cap=8_000_000, vt_cap_s=400_000, wall_s=200)
     if out["abort"]:
         out["violations"].append(violation(
